@@ -761,6 +761,42 @@ func init() {
 			r.Require("accepted_after_many_refusals", 30)
 			r.Require("endpoint_with_query_requests", 100)
 			r.Require("uptime_accepted", 100)
+			// a provider that is built now and asked again when it is more than half a minute old (last workload)
+			oldEnv, oldBorn := env.Static(env.Opts{}), time.Now()
+			oldSP := stdSP(0)
+			oldSP.AuthnRequestsSigned = ""
+			oldSP.SLO = []spsim.SLO{{Binding: spsim.BindPost, Location: "https://sp0.example/slo"}}
+			mustRegister(oldEnv.W, oldSP, "appOld")
+			aged := core.Workload{Name: "provider_older_than_half_a_minute", N: 1, Workers: 1, Fn: func(r *core.Run, idx int, rng *rand.Rand) {
+				if d := 33*time.Second - time.Since(oldBorn); d > 0 {
+					time.Sleep(d)
+				}
+				for k := 0; k < 6; k++ {
+					now := time.Now()
+					var call *env.Call
+					kind := []string{"logout_post", "authn_with_conditions", "logout_redirect"}[k%3]
+					switch kind {
+					case "authn_with_conditions":
+						a := validAuthn(rng, oldSP)
+						a.IssueInstant = tsFrac(now, 3)
+						a.Conditions, a.NotBefore, a.NotOnOrAfter = true, tsFrac(now, 3), tsFrac(now.Add(5*time.Minute), 3)
+						s := ssoSend{Binding: "redirect", XML: a.XML(rng)}
+						call, _ = s.do(oldEnv)
+					default:
+						l := conformantLogout(rng, oldSP)
+						l.IssueInstant = tsFrac(now, 3)
+						s := ssoSend{Path: env.PathSLO, Binding: strings.TrimPrefix(kind, "logout_"), XML: l.XML(rng)}
+						call, _ = s.do(oldEnv)
+					}
+					class := "aged_provider|" + kind
+					r.Eval(fmt.Sprintf("%s|%d", class, k))
+					r.Count("requests_to_an_aged_provider", 1)
+					ok := call.Panic == "" && (call.Accepted() || (kind != "authn_with_conditions" && call.D.Success()))
+					if !ok {
+						r.Violate(core.Violation{Clause: "conformant_request_rejected_by_an_aged_provider", Class: class, Reason: fmt.Sprintf("a conformant request issued just now (IssueInstant / NotBefore = now) was not accepted by a provider constructed %s ago: status %d %s %s", time.Since(oldBorn).Round(time.Second), call.D.Status, clipS(string(call.D.Body), 200), call.Panic), Workload: "provider_older_than_half_a_minute", Index: idx, Observed: call.Describe()})
+					}
+				}
+			}}
 			return []core.Workload{
 				// first, while nothing else has run in this process: one provider serving > 100 MiB of ordinary messages one after the other
 				{Name: "long_uptime", N: c.Pick(2, 8), Workers: 1, Fn: c07Uptime},
@@ -778,6 +814,7 @@ func init() {
 				{Name: "signed_request_sequences", N: c.Pick(60, 600), Fn: c07SignedSequence},
 				{Name: "after_many_refusals", N: c.Pick(12, 60), Fn: c07AfterManyRefusals},
 				{Name: "advertised_location_with_query", N: c.Pick(120, 1200), Fn: c07EndpointQuery},
+				aged,
 			}
 		},
 	})
